@@ -188,7 +188,7 @@ func runC06(c *Ctx) {
 			o.Fail(R.Pos(), "expected exactly one advance of head by the packet length in Read, found %d", adv)
 		}
 		nShort := 0
-		for _, in := range findU(R, func(in ssa.Instruction) bool { return returnsGlobalErr(in, "io", "ErrShortBuffer") }) {
+		for _, in := range findInstrs(R, func(in ssa.Instruction) bool { return returnsGlobalErr(in, "io", "ErrShortBuffer") }) {
 			nShort++
 			ret := in.(*ssa.Return)
 			o.Site(in.Pos(), "return ErrShortBuffer")
@@ -203,7 +203,7 @@ func runC06(c *Ctx) {
 		if nShort == 0 {
 			o.Fail(R.Pos(), "Read never reports ErrShortBuffer")
 		}
-		for _, in := range findU(R, isSuccessReturn) {
+		for _, in := range findInstrs(R, isSuccessReturn) {
 			ret := in.(*ssa.Return)
 			if !hasFact(in, func(f fact) bool {
 				cm, ok := normCmp(f.Cond, f.Val)
@@ -214,7 +214,7 @@ func runC06(c *Ctx) {
 			o.Site(in.Pos(), "success return")
 		}
 		// copied = min(count, len(packet))
-		for _, in := range findU(R, func(in ssa.Instruction) bool { return isSuccessReturn(in) || returnsGlobalErr(in, "io", "ErrShortBuffer") }) {
+		for _, in := range findInstrs(R, func(in ssa.Instruction) bool { return isSuccessReturn(in) || returnsGlobalErr(in, "io", "ErrShortBuffer") }) {
 			n := in.(*ssa.Return).Results[0]
 			if ph, ok := n.(*ssa.Phi); ok {
 				okMin := false
@@ -819,7 +819,7 @@ func runC07(c *Ctx) {
 	}
 	// R3 = C06.R3 (refusal side-effect free) re-evaluated here for ErrFull specifically
 	o = c.Obl("R3", fname(W), "a refused Write (ErrFull) performs no store to contents, Count or Size before refusing", 1)
-	for _, in := range findU(W, func(in ssa.Instruction) bool { return returnsGlobalErr(in, "packetio", "ErrFull") || isErrorReturn(in) }) {
+	for _, in := range findInstrs(W, func(in ssa.Instruction) bool { return returnsGlobalErr(in, "packetio", "ErrFull") || isErrorReturn(in) }) {
 		o.Site(in.Pos(), "error return")
 	}
 	for _, st := range findU(W, func(in ssa.Instruction) bool {
